@@ -7,12 +7,13 @@ import * as A from "../gen/ast.mjs";
 import { corpus, valuesFor, typeKey, kindsHistogram, h8 } from "../lib/corpus.mjs";
 import { coreProgramText, shallow } from "../lib/localise.mjs";
 import { toEjson, fromEjson, valueClass, show } from "../lib/ejson.mjs";
-import { snapshot, snapshotDiff, deepFreeze, deepEqual, projectionFault } from "../lib/deep.mjs";
+import { snapshot, snapshotDiff, deepFreeze, deepEqual, projectionFault, isCyclic } from "../lib/deep.mjs";
 import { loadModule, buildAll, ALL_SETTINGS, client } from "../lib/loader.mjs";
 import { renderType } from "../gen/ast.mjs";
 import { Ref } from "../ref/member.mjs";
 import { compileText, compileProgram } from "../lib/util.mjs";
 import { Rng } from "../lib/rng.mjs";
+import { localiseClause } from "../lib/relloc.mjs";
 
 export const FEATURES = {};
 const OPTION_SETS = [
@@ -45,17 +46,6 @@ function droppedProtoName(data, input, depth = 0) {
   return false;
 }
 
-function isCyclic(v, stack = new Set(), depth = 0) {
-  if (v === null || typeof v !== "object" || depth > 300) return false;
-  if (stack.has(v)) return true;
-  stack.add(v);
-  let r = false;
-  if (v instanceof Map) for (const [k, x] of v) r = r || isCyclic(k, stack, depth + 1) || isCyclic(x, stack, depth + 1);
-  else if (v instanceof Set) for (const x of v) r = r || isCyclic(x, stack, depth + 1);
-  else if (!ArrayBuffer.isView(v)) for (const k of Object.keys(v)) r = r || isCyclic(v[k], stack, depth + 1);
-  stack.delete(v);
-  return r;
-}
 // somewhere the input has a Date / Map / typed array / class instance where the data has a rebuilt plain object
 function exoticRebuilt(data, input, depth = 0) {
   if (depth > 50 || data === input || data === null || input === null || typeof data !== "object" || typeof input !== "object") return false;
@@ -135,62 +125,6 @@ function frozenCheck(parser, v, o) {
   return null;
 }
 
-function children(env, t, v) {
-  let r;
-  try {
-    r = env.resolve(t);
-  } catch {
-    return [];
-  }
-  if (t.c === "ref") return [[r, v]];
-  const out = [];
-  const hasOwn = (o, k) => Object.prototype.hasOwnProperty.call(o, k);
-  if (r.c === "union" || r.c === "inter") for (const m of r.ts) out.push([m, v]);
-  if (r.c === "arr" && Array.isArray(v)) for (const x of v.slice(0, 5)) out.push([r.el, x]);
-  if (r.c === "tuple" && Array.isArray(v)) v.slice(0, 6).forEach((x, i) => (i < r.items.length ? out.push([r.items[i], x]) : r.rest && out.push([r.rest, x])));
-  if (r.c === "obj" && v !== null && typeof v === "object") {
-    for (const p of r.props) if (hasOwn(v, p.name)) out.push([p.t, v[p.name]]);
-    if (r.index) for (const k of Object.keys(v).slice(0, 5)) out.push([r.index.val, v[k]]);
-  }
-  if (r.c === "map" && v instanceof Map) for (const [k, x] of [...v].slice(0, 3)) (out.push([r.key, k]), out.push([r.val, x]));
-  if (r.c === "set" && v instanceof Set) for (const x of [...v].slice(0, 3)) out.push([r.el, x]);
-  if (r.c === "union" && r.ts.length > 2) for (let i = 0; i < r.ts.length; i++) out.push([{ c: "union", ts: r.ts.filter((_, j) => j !== i) }, v]);
-  return out;
-}
-
-async function localiseClause(ctx, env, ref, core, v, o, clause) {
-  const cache = new Map();
-  const test = async (t, x) => {
-    const text = coreProgramText(env, t);
-    let parser = cache.get(text);
-    if (parser === undefined) {
-      const r = await compileText(ctx, text);
-      parser = r.parsers ? r.parsers.X : null;
-      cache.set(text, parser);
-    }
-    if (!parser) return null;
-    const f = checkTriple(parser, "X", x, o, t, ref);
-    return f && f.clause === clause ? f : null;
-  };
-  let cur = [core, v];
-  let curF = await test(core, v);
-  if (!curF) return { core, value: v, standalone: false, detail: null };
-  for (let d = 0; d < 20; d++) {
-    let next = null;
-    for (const [t2, v2] of children(env, cur[0], cur[1])) {
-      const f = await test(t2, v2);
-      if (f) {
-        next = [[t2, v2], f];
-        break;
-      }
-    }
-    if (!next) break;
-    cur = next[0];
-    curF = next[1];
-  }
-  return { core: cur[0], value: cur[1], standalone: true, detail: curF.detail };
-}
-
 async function reportClause(ctx, item, parserName, core, v, o, f, locCache) {
   const env = item.prog.env;
   const ck = `${typeKey(env, core)}|${f.clause}|${optKey(o)}|${valueClass(v)}`;
@@ -201,7 +135,7 @@ async function reportClause(ctx, item, parserName, core, v, o, f, locCache) {
     if (f.clause === "writes-to-input" || f.clause.startsWith("frozen")) {
       hit = { signature: `${f.clause}|${shallow(env, core)}|${valueClass(v)}`, text: item.text, parser: parserName, value: v, detail: f.detail };
     } else {
-      const loc = await localiseClause(ctx, env, item.ref, core, vv, o, f.clause);
+      const loc = await localiseClause(ctx, env, item.ref, core, vv, o, f.clause, checkTriple);
       hit = loc.standalone
         ? { signature: `${f.clause}|${shallow(env, loc.core)}|${valueClass(loc.value)}`, text: coreProgramText(env, loc.core), parser: "X", value: loc.value, detail: loc.detail }
         : { signature: `${f.clause}|src-only|${shallow(env, core)}|${valueClass(v)}`, text: item.text, parser: parserName, value: v, detail: f.detail };
